@@ -106,3 +106,37 @@ Example C17_example_transfer :
   transfer_from [] (mk_true 3) [[97]; [98]; [99]] = Ok (Some (mk_true 0)).
 Proof. vm_compute. repeat split; reflexivity. Qed.
 Print Assumptions C17_example_transfer.
+
+(* rename_variable refuses exactly on: an index out of range (the two asserts, checked first — also when old = new);
+   otherwise, unless old = new (early return, also for a support variable), a support variable strictly between the two
+   indices or the new index already in the support.  No hypothesis on the diagram. *)
+From BddVerif Require Proofs.GapsRename.
+Theorem C17_rename_variable_panic_iff : forall b old new,
+  rename_variable b old new = Panic <->
+  (nvars b <= old \/ nvars b <= new \/
+   (old <> new /\ ((exists x, in_support b x /\ N.min old new < x /\ x < N.max old new) \/ in_support b new))).
+Proof. exact GapsRename.rename_variable_panic_iff. Qed.
+Print Assumptions C17_rename_variable_panic_iff.
+
+(* hence, for a valid diagram, the exact success condition together with the meaning of the result *)
+Theorem C17_rename_variable_ok_iff : forall b old new, wf b ->
+  (old < nvars b /\ new < nvars b /\
+   (old = new \/ ((forall x, in_support b x -> N.min old new < x -> x < N.max old new -> False) /\ ~ in_support b new))) <->
+  exists r, rename_variable b old new = Ok r /\ wf r /\ nvars r = nvars b /\
+    (forall v, eval r v = eval b (fun x => if x =? old then v new else v x)) /\
+    (reduced b -> reduced r) /\ (Canonical b -> Canonical r).
+Proof. exact GapsRename.rename_variable_ok_iff. Qed.
+Print Assumptions C17_rename_variable_ok_iff.
+
+Example C17_example_rename_variable_panics :
+  let b := [mkNode 4 0 0; mkNode 4 1 1; mkNode 2 0 1; mkNode 0 2 1] in
+  wfb b = true /\
+  rename_variable b 4 1 = Panic /\ rename_variable b 1 4 = Panic /\
+  rename_variable b 0 3 = Panic /\ rename_variable b 3 1 = Panic /\ rename_variable b 3 0 = Panic /\
+  rename_variable b 0 2 = Panic /\ rename_variable b 1 2 = Panic /\
+  rename_variable b 2 2 = Ok b /\ rename_variable b 1 3 = Panic /\
+  rename_variable b 3 1 = Panic /\ rename_variable b 1 1 = Ok b /\
+  rename_variable b 2 1 = Ok [mkNode 4 0 0; mkNode 4 1 1; mkNode 1 0 1; mkNode 0 2 1] /\
+  rename_variable b 2 3 = Ok [mkNode 4 0 0; mkNode 4 1 1; mkNode 3 0 1; mkNode 0 2 1].
+Proof. exact GapsRename.rename_variable_panic_example. Qed.
+Print Assumptions C17_example_rename_variable_panics.
